@@ -628,7 +628,7 @@ pub fn one_run(sc: &Scenario, ex: &mut Explorer, gen: Value) -> (Vec<Value>, Val
                     let reg = c.get_name().and_then(ractor::registry::where_is).map(|h| h.get_id() == c.get_id()).unwrap_or(false);
                     let pg = ractor::pg::get_members(&format!("g@{}", g.run_tag)).iter().any(|m| m.get_id() == c.get_id());
                     f.push(json!({"x": sc4.actors[i].name, "st": c.get_status() as i64,
-                                  "kids": c.get_children().len(), "sup": c.try_get_supervisor().is_some(), "reg": reg, "pg": pg}));
+                                  "kids": c.get_children().len(), "sup": c.try_get_supervisor().is_some(), "reg": reg, "named": c.get_name().is_some(), "pg": pg}));
                 }
             }
     };
